@@ -66,29 +66,44 @@ def confirm(src, name, prop):
 
 
 def run(name, checks):
+    """Runs the quick checks against a scratch worktree of /repo with the patch applied (BARRIL_REPO), with a
+    private copy of the Lean project and private evidence/replay directories, so that neither /repo nor the
+    committed evidence is disturbed while other work goes on.  (Equivalent to: git -C /repo apply; run; undo.)"""
     dst = os.path.join(SEEDED, name)
     meta = json.load(open(os.path.join(dst, "meta.json")))
     checks = checks or [meta["property"]]
-    rc, out = sh(["git", "-C", "/repo", "status", "--porcelain"])
-    assert out.strip() == "", "/repo is not clean"
-    rc, out = sh(["git", "-C", "/repo", "apply", os.path.join(dst, "patch.diff")])
+    wt = "/tmp/seedrun_%s_repo" % name
+    lean = "/tmp/seedrun_lean"
+    out_dir = "/tmp/seedrun_%s_out" % name
+    sh(["git", "-C", "/repo", "worktree", "remove", "--force", wt])
+    rc, out = sh(["git", "-C", "/repo", "worktree", "add", "--detach", wt, "HEAD"])
     assert rc == 0, out
+    rc, out = sh(["git", "apply", os.path.join(dst, "patch.diff")], cwd=wt)
+    assert rc == 0, out
+    sh(["rsync", "-a", "--delete", "--exclude", ".verif.lock", os.path.join(VERIF, "lean") + "/", lean + "/"])
+    shutil.rmtree(out_dir, ignore_errors=True)
+    os.makedirs(out_dir + "/replays")
+    env = {"BARRIL_REPO": wt, "BARRIL_LEAN_DIR": lean, "BARRIL_EVIDENCE_DIR": out_dir + "/evidence",
+           "BARRIL_REPLAY_DIR": out_dir + "/replays"}
     results = meta.setdefault("detected_by", {})
     try:
         for cid in checks:
             t0 = time.time()
-            before = set(glob.glob(os.path.join(VERIF, "replays", "*.json")))
-            rc, out = sh([os.path.join(VERIF, "check"), cid, "--tier", "quick"], cwd=VERIF)
+            before = set(glob.glob(out_dir + "/replays/*.json"))
+            rc, out = sh([os.path.join(VERIF, "check"), cid, "--tier", "quick"], cwd=VERIF, env=env)
             line = [l for l in out.splitlines() if l.startswith("VIOLATION")]
-            new = sorted(set(glob.glob(os.path.join(VERIF, "replays", "*.json"))) - before)
-            kind = None
+            new = sorted(set(glob.glob(out_dir + "/replays/*.json")) - before)
+            kind, what = None, None
             if new:
-                kind = json.load(open(new[-1])).get("kind")
-            results[cid] = dict(exit=rc, violation_line=line[0] if line else None, replay_kind=kind,
+                rp = json.load(open(new[-1]))
+                kind = rp.get("kind")
+                what = json.dumps(rp.get("failure") or rp.get("broken"), default=str)[:400]
+            results[cid] = dict(exit=rc, violation_line=line[0] if line else None, replay_kind=kind, replay_says=what,
                                 seconds=round(time.time() - t0, 1))
             print(name, cid, "exit", rc, kind, line[0] if line else out[-300:])
     finally:
-        sh(["git", "-C", "/repo", "checkout", "--", "."])
+        sh(["git", "-C", "/repo", "worktree", "remove", "--force", wt])
+        shutil.rmtree(out_dir, ignore_errors=True)
     json.dump(meta, open(os.path.join(dst, "meta.json"), "w"), indent=1)
 
 
